@@ -22,6 +22,8 @@ pub fn pool() -> Vec<V> {
         V::s("\u{a0}\u{2003}"), V::s(" \u{a0}x"),
         V::Arr(vec![]), V::Arr(vec![V::Int(1)]), V::Arr(vec![V::Int(1), V::Int(2)]), V::Arr(vec![V::s("a")]),
         V::Obj(vec![]), V::obj(&[("k", V::Int(1))]), V::obj(&[("a", V::Int(1))]),
+        // same size, different keys, and the members a missing key could be mistaken for
+        V::obj(&[("k", V::Nil)]), V::obj(&[("a", V::Bool(false))]),
         V::Empty, V::Blank, V::Arr(vec![V::Nil]),
     ]
 }
